@@ -256,7 +256,7 @@ func init() {
 			pool.Map(raw, func(i int, b []byte, err error) {
 				var r c02CompResult
 				if err != nil {
-					r.Viol = []string{"worker crashed: " + err.Error()}
+					r.Viol = explore.CrashViol(err)
 				} else {
 					json.Unmarshal(b, &r)
 				}
